@@ -416,7 +416,7 @@ pub fn short_bodies() -> Vec<Vec<u8>> {
 
 pub fn check(ctx: &mut Ctx) {
 	ctx.rule = "HTTP requests into the tower service with the body supplied as an explicit frame sequence: methods x content-type lists (six accepted spellings in random letter case, near misses, raw bytes, duplicates, none) x bodies; \
-		for accepted requests random cuts into <= 8 chunks (biased into the 128-byte sniffing window, empty and blank-only chunks) with/without Content-Length, and EVERY way of cutting each of a set of short bodies into <= 3 chunks. \
+		for accepted requests random cuts into <= 8 chunks (biased into the 128-byte sniffing window, empty and blank-only chunks) with/without Content-Length (a quarter of them through the low-level http::call_with_service_builder), and EVERY way of cutting each of a set of short bodies into <= 3 chunks. \
 		Oracle: 405 / 415 + empty invocation log; metamorphic: same bytes as one chunk with Content-Length. Non-trivial = >= 2 chunks with a cut inside the first 128 bytes, or an empty/blank-only chunk (gates: non-POST, non-JSON, case variants, duplicates)."
 		.into();
 	ctx.assumptions = vec!["requests the `http` crate refuses to build (invalid header bytes / method tokens) are skipped and counted".into()];
